@@ -849,7 +849,7 @@ def _run_rest(chk, fx):
             chk.violation(r_mt, key, "%s: the literal returned for zero (%s) does not have %d mantissa zeros like every other value" % (fname, zero, P_ + 1), f["file"], f["l"])
 
     # ---- C07.fsize: the size of a formatted array as the index builder computes it
-    r_fz = chk.rule("C07.fsize", "sizeOnDiskFormatted (used to skip over formatted arrays when the file index is built): as a symbolic term over num and the block / column / width triple of block_size_data_formatted, the returned size is [num/M full blocks of M*W characters + ceil(M/C) line ends] + (num%M)*W characters + ceil((num%M)/C) line ends - what writeFormattedArray emits; for C0NN the width is elementSize + 3 and the columns 80 / width; the writers read the same triple from the same tuple fields", floor=5)
+    r_fz = chk.rule("C07.fsize", "sizeOnDiskFormatted (used to skip over formatted arrays when the file index is built): as a symbolic term over num and the block / column / width triple of block_size_data_formatted, the returned size is [num/M full blocks of M*W characters + ceil(M/C) line ends] + (num%M)*W characters + ceil((num%M)/C) line ends - what writeFormattedArray emits; for C0NN the width is elementSize + 3 and the columns 80 / width (clamped to at least 1); the writers read the same triple from the same tuple fields", floor=5)
     from verif import symb as sy
     fz = [f for f in fx.fns if f["n"] == "sizeOnDiskFormatted" and f.get("body")]
     if len(fz) != 1:
@@ -902,7 +902,13 @@ def _run_rest(chk, fx):
     ov = {}
     for n in walk(fz["body"]):
         if n["k"] == "Bin" and n.get("asg") and n.get("op") == "=" and tuple_field(n["c"][0]):
-            ov[tuple_field(n["c"][0])[0]] = (ev_.term(n["c"][1], {}), n)
+            rhs_ = strip(n["c"][1])
+            if rhs_.get("k") == "Call" and (rhs_.get("fn") or "").endswith("std::max") and len(rhs_.get("a") or []) == 2:
+                # a lower clamp of the column count (decided by C07.c0nncols): the term is the clamped expression
+                cand_ = [a_ for a_ in rhs_["a"] if strip(a_).get("k") != "Int"]
+                if len(cand_) == 1:
+                    rhs_ = cand_[0]
+            ov[tuple_field(n["c"][0])[0]] = (ev_.term(rhs_, {}), n)
     okc = ov.get(2, (None,))[0] == sy.add(sy.S("elementSize"), sy.I(3)) and ov.get(1, (None,))[0] == sy.div(sy.I(80), sy.S("W")) and 0 not in ov
     chk.instance(r_fz, "c0nn", sample=dict(width=sy.show_term(ov.get(2, (None,))[0]), columns=sy.show_term(ov.get(1, (None,))[0])))
     if not okc:
@@ -1066,6 +1072,38 @@ def _run_rest(chk, fx):
         chk.instance(r_cw, wn, sample=dict(format=txt[:160]))
         if not okw:
             chk.violation(r_cw, wn, "%s no longer prints the C0nn width as 'C' + setw(3) + setfill('0') (%s)" % (wn, txt[:160]), wf["file"], wf["l"])
+
+    # ---- C07.c0nncols: elements per line of a formatted long-string array
+    r_cc = chk.rule("C07.c0nncols", "formatted C0nn arrays: the number of elements per 80-column line, 80 / (width + 3), is used as a divisor by the writer (line breaks) and by sizeOnDiskFormatted (skipping the array); both clamp it to at least 1 (std::max(1, ..)), the same way - unclamped it is 0 from width 78 on and the `%` / `/` by it is a division by zero (SIGFPE, not an exception), clamped in one place only the reader skips a different number of bytes than the writer wrote", floor=2)
+    from verif import cow as _cow7
+    fo_cc = chk.facts(["opm/io/eclipse/EclOutput.cpp"])
+    sites_cc = []
+    for f in list(fx.fns) + list(fo_cc.fns):
+        if not f.get("body") or f["n"] not in ("writeFormattedCharArray", "sizeOnDiskFormatted") or os.path.basename(f["file"]) not in ("EclOutput.cpp", "EclUtil.cpp"):
+            continue
+        par_c = _cow7.parent_map(f)
+        for n in walk(f["body"]):
+            if n.get("k") == "Bin" and n.get("op") == "/" and strip(n["c"][0]).get("k") == "Int" and int(strip(n["c"][0])["v"]) == 80:
+                if any(id(n) == s_[2] for s_ in sites_cc):
+                    continue
+                cur = n
+                clamp = None
+                while id(cur) in par_c:
+                    cur = par_c[id(cur)]
+                    if cur.get("k") == "Call" and (cur.get("fn") or "").endswith("std::max"):
+                        others = [strip(a_) for a_ in cur.get("a") or [] if n not in list(walk(a_))]
+                        clamp = [show(o_) for o_ in others]
+                        break
+                    if cur.get("k") not in ("Cast", "Temp", "Bind", "Paren"):
+                        break
+                sites_cc.append((f, n, id(n), clamp))
+    for f, n, _, clamp in sites_cc:
+        key = "%s@%d" % (f["n"], n["l"])
+        chk.instance(r_cc, key, sample=dict(function=f["q"], quotient=show(n), clamped_with=clamp))
+        if not clamp or not all(re.fullmatch(r"[1-9]\d*", c_) for c_ in clamp):
+            chk.violation(r_cc, key, "%s: the column count %s is not clamped to at least 1: for element widths of 78 or more it is 0 and is then used as a divisor" % (f["q"], show(n)), f["file"], n["l"])
+    if len({tuple(c_ or ()) for _, _, _, c_ in sites_cc}) > 1:
+        chk.violation(r_cc, "agree", "writer and size computation clamp the C0nn column count differently (%s)" % [c_ for _, _, _, c_ in sites_cc], sites_cc[0][0]["file"], sites_cc[0][1]["l"])
 
     # ---- C07.realparse: text -> float without a range exception
     r_rp = chk.rule("C07.realparse", "the formatted readers of opm/io/eclipse convert a REAL token with a function that cannot raise a range error for text the writer produces: std::stod followed by narrowing, or strtof / strtod (which return a value and do not throw).  std::stof throws std::out_of_range for every subnormal float (and for values beyond FLT_MAX), which `%e` output of a float array contains legally", floor=8)
